@@ -215,6 +215,7 @@ fn drive<S, I, W, R, WE, RE>(
     items: Vec<S>,
     flush_every: u8,
     close_before_drop: bool,
+    byte_progress: &dyn Fn() -> u64,
 ) -> Result<(Vec<I>, bool), String>
 where
     W: Sink<S, Error = WE>,
@@ -233,8 +234,14 @@ where
     let mut eos = false;
     let mut idle_rounds = 0u32;
     let mut early_eos = false;
+    let mut last_bytes = byte_progress();
     loop {
         let mut progress = false;
+        let b = byte_progress();
+        if b != last_bytes {
+            last_bytes = b;
+            progress = true;
+        }
         // writer
         if let Some(wr) = writer.as_mut() {
             if need_flush {
@@ -310,7 +317,7 @@ where
             idle_rounds = 0;
         } else {
             idle_rounds += 1;
-            if idle_rounds > 1_000_000 {
+            if idle_rounds > 200_000 {
                 return Err(format!("no progress: {} of {n} written, {} read, writer {} (messages lost or end-of-stream never signalled)", sent, out.len(), if writer.is_some() { "open" } else { "dropped" }));
             }
         }
@@ -330,12 +337,13 @@ pub fn check(sc: &Sc15) -> CaseResult {
         .collect();
     let want: Vec<MsgSpec> = msgs.iter().map(|m| expected(m, serde_medium)).collect();
     let mut partial = (0u32, 0u32);
+    let probe: std::cell::RefCell<Box<dyn Fn() -> u64>> = std::cell::RefCell::new(Box::new(|| 0));
     let got: Result<(Vec<MsgSpec>, bool), String> = crate::sim::exec::catch(|| {
         macro_rules! go {
             ($w:expr, $r:expr) => {{
                 if sc.client_to_server {
                     let items: Vec<ClientMessage<Body>> = msgs.iter().filter_map(|m| mk_client_msg(m, now)).collect();
-                    drive(Some(Box::pin($w)), Box::pin($r), items, sc.flush_every, sc.close_before_drop)
+                    drive(Some(Box::pin($w)), Box::pin($r), items, sc.flush_every, sc.close_before_drop, &*probe.borrow())
                         .map(|(v, e)| (v.into_iter().map(|m| back_client(m, now)).collect::<Vec<_>>(), e))
                 } else {
                     unreachable!()
@@ -345,7 +353,7 @@ pub fn check(sc: &Sc15) -> CaseResult {
         macro_rules! go_resp {
             ($w:expr, $r:expr) => {{
                 let items: Vec<Response<Body>> = msgs.iter().filter_map(mk_response).collect();
-                drive(Some(Box::pin($w)), Box::pin($r), items, sc.flush_every, sc.close_before_drop)
+                drive(Some(Box::pin($w)), Box::pin($r), items, sc.flush_every, sc.close_before_drop, &*probe.borrow())
                     .map(|(v, e)| (v.into_iter().map(back_response).collect::<Vec<_>>(), e))
             }};
         }
@@ -375,6 +383,13 @@ pub fn check(sc: &Sc15) -> CaseResult {
                     h.read_script = sc.read_script.clone();
                 }
                 let (ha, hb) = (a.tx.clone(), b.tx.clone());
+                {
+                    let (pa, pb) = (ha.clone(), hb.clone());
+                    *probe.borrow_mut() = Box::new(move || {
+                        let (x, y) = (pa.borrow(), pb.borrow());
+                        x.total_written + y.total_written + (x.readable.len() + y.readable.len()) as u64 * 1_000_003
+                    });
+                }
                 let r = if sc.medium == MediumSpec::Json {
                     let c = tarpc::serde_transport::Transport::<_, Response<Body>, ClientMessage<Body>, _>::from((
                         a,
